@@ -156,7 +156,7 @@ Definition dispatch_base (fid : nat) (a : list tree) : option tree :=
   | 9 => (* entries of a byte string, projected and rendered one by one *)
          let st := d_psettings (d_arg 0 a) in
          let mode := d_nat (d_arg 1 a) in
-         Some (match utf8_decode (d_list d_n (d_arg 2 a)) with
+         Some (match decode_source (d_list d_n (d_arg 2 a)) with
                | None => L [I 1%N]
                | Some src =>
                    match lex src with
@@ -178,5 +178,16 @@ Definition dispatch_base (fid : nat) (a : list tree) : option tree :=
                        end
                    end
                end)
+  | 10 => Some (match decode_source (d_list d_n (d_arg 0 a)) with
+                | None => L [I 3%N]
+                | Some src =>
+                    match lex src with
+                    | LexErr p => L [I 2%N; e_nat p]
+                    | LexOk ts => match parse ts with
+                                  | None => L [I 1%N]
+                                  | Some f => L [I 0%N; e_cfile f]
+                                  end
+                    end
+                end)
   | _ => None
   end.
